@@ -23,7 +23,9 @@ META = {
              "model prescribes; the drawn orders must reappear unchanged on the ballots. type cases = slate-PL ballot-type "
              "sampler driven with scripted uniform arrays (conditional law by bisection). table cases = exact BT samplers' "
              "p vs table and index->ranking. kernel cases = one scripted MCMC step from every state, acceptance located by "
-             "bisection, detailed balance vs the closed-form table. frequency cases = 20k (thorough 200k) ballots on fixed "
+             "bisection, detailed balance vs the closed-form table. chain cases = generate_profile_MCMC / generate_profile("
+             "deterministic=False) for 2-40 ballots with proposals and acceptance uniforms scripted: the ballots returned per bloc "
+             "must be the states a Metropolis chain for the table visits under that script. frequency cases = 20k (thorough 200k) ballots on fixed "
              "skewed parameter sets vs closed forms with Hoeffding thresholds (alpha=1e-9). spatial cases = rankings "
              "recomputed from returned positions. distinct = hash(case); non-trivial = >=2 blocs or a zero-support "
              "candidate or an extreme cohesion, or any kernel/frequency case."),
@@ -32,7 +34,8 @@ META = {
                     "frequency tests only bound deviations larger than the stated thresholds"],
     "min_obs": {"all": {"choice_calls_law_checked": 800, "orders_matched_on_ballots": 300, "slate_pl_conditionals": 50,
                         "bt_tables_p_checked": 40, "kernel_pairs_balanced": 60, "freq_tests": 6, "spatial_voters_checked": 300,
-                        "ic_uniform_checks": 5, "crossover_split_checks": 20}},
+                        "ic_uniform_checks": 5, "crossover_split_checks": 20, "chain_steps_validated": 300,
+                        "chain_runs_of_3plus_steps": 20}},
     "soft_deadline": {"quick": 200, "thorough": 3000},
 }
 
@@ -631,6 +634,159 @@ def check_kernel_slate_bt(ctx, case):
         ctx.extra.setdefault("kernel_residuals", []).append(worst)
 
 
+# ------------------------------------------------------------------ D2. MCMC trajectories through the public entry points
+
+def _scripted_us(rnd, ratios, k):
+    """k uniforms in (0,1): seeded values kept away from every acceptance ratio, plus probes hugging the ratios"""
+    rs = [r for r in ratios if 0 < r < 1]
+    us = []
+    while len(us) < k:
+        if rs and rnd.random() < 0.35:
+            u = rnd.choice(rs) + rnd.choice([-1, 1]) * rnd.choice([1e-3, 1e-5])
+        else:
+            u = rnd.random()
+        if 0 <= u < 1 and all(abs(u - r) > 1e-7 for r in rs):
+            us.append(u)
+    return us
+
+
+def _chain_states(start, js, us, pi):
+    """states visited by a Metropolis chain with adjacent-swap proposals js and uniforms us for the target pi"""
+    s = tuple(start)
+    out = [s]
+    for j, u in zip(js, us):
+        t = list(s)
+        t[j], t[j + 1] = t[j + 1], t[j]
+        t = tuple(t)
+        if t != s and pi[s] > 0 and u < min(1.0, pi[t] / pi[s]):
+            s = t
+        out.append(s)
+    return out
+
+
+def _explained(observed, js, us, pi, starts):
+    """is the observed multiset of states the trajectory (states after each step, or before each step) from some start?"""
+    from collections import Counter
+    for st in starts:
+        tr = _chain_states(st, js, us, pi)
+        if observed == Counter(tr[1:]) or observed == Counter(tr[:-1]):
+            return True
+    return False
+
+
+def check_chain(ctx, case):
+    """name-BT generate_profile_MCMC / slate-BT generate_profile(deterministic=False) asked for N ballots with the proposals and
+    the acceptance uniforms scripted: the ballots (types) returned per bloc must be exactly the states a Metropolis chain for the
+    model's table visits under that script (from any start state) — every step of a long run, not only the first."""
+    from collections import Counter
+
+    model, p, N = case["model"], case["params"], case["N"]
+    blocs = list(p["bloc_voter_prop"])
+    ctx.case(case, nontrivial=True)
+    og = observe(bp.make, model, p)
+    if not og.ok:
+        ctx.count("constructor_raised_skipped")
+        return
+    g = og.value
+    rnd = _random.Random(case["seed"])
+    # reference tables per bloc
+    tabs = {}
+    for b in blocs:
+        if model == "name_BradleyTerry":
+            exp, zero = c15.ref_combined(p, b)
+            if not (2 <= len(exp) <= 4):
+                return
+            tabs[b] = ({k: float(v) for k, v in c15.ref_name_bt(exp).items()}, set(zero), len(exp))
+        else:
+            if len(blocs) != 2:
+                return
+            opp = [x for x in blocs if x != b][0]
+            rt = c15.ref_slate_bt(p, b, opp)
+            if rt is None or len(next(iter(rt))) < 2 or any(v == 0 for v in rt.values()):
+                return
+            zero = {c for s in blocs for c, v in p["pref_intervals_by_bloc"][b][s].items() if v == 0}
+            tabs[b] = ({k: float(v) for k, v in rt.items()}, zero, len(next(iter(rt))))
+    ratios = sorted({pi[t] / pi[s] for pi, _, _ in tabs.values() for s in pi for t in pi if pi[s] > 0})
+    prop_calls, us_given = [], []
+    oc, orr, onc = _random.choices, _random.random, _np.random.choice
+
+    def next_u():
+        u = _scripted_us(rnd, ratios, 1)[0]
+        us_given.append(u)
+        return u
+
+    def fake_choices(pop, weights=None, *, cum_weights=None, k=1):
+        pop = list(pop)
+        js = [rnd.randrange(len(pop)) for _ in range(k)]
+        prop_calls.append((pop, weights, cum_weights, k, js, len(us_given)))
+        return [pop[j] for j in js]
+
+    def fake_np_choice(a, size=None, replace=True, p=None):
+        if p is None and isinstance(a, (int, _np.integer)) and size is not None and replace:
+            k = int(size)
+            js = [rnd.randrange(int(a)) for _ in range(k)]
+            prop_calls.append((list(range(int(a))), None, None, k, js, len(us_given)))
+            return _np.array(js)
+        return onc(a, size=size, replace=replace, p=p)
+
+    seed_all(case["seed"])
+    _random.random = next_u
+    if model == "name_BradleyTerry":
+        _random.choices = fake_choices
+    else:
+        _np.random.choice = fake_np_choice
+    try:
+        if model == "name_BradleyTerry":
+            o = observe(g.generate_profile_MCMC, N, by_bloc=True)
+        else:
+            o = observe(g.generate_profile, N, by_bloc=True, deterministic=False)
+    finally:
+        _random.choices, _random.random, _np.random.choice = oc, orr, onc
+    if not o.ok:
+        ctx.count("generation_raised_skipped")  # judged by C14
+        return
+    by_bloc = o.value[0]
+    prop_calls = [c for c in prop_calls if c[3] > 0]
+    sizes = {b: int(sum((bl.weight for bl in by_bloc[b].ballots), F(0))) for b in blocs}
+    active = [b for b in blocs if sizes[b] > 0]
+    # structure: one proposal call per non-empty bloc, in bloc order, k = bloc size, one uniform per step
+    if len(prop_calls) != len(active) or any(c[3] != sizes[b] for c, b in zip(prop_calls, active)) or len(us_given) != sum(sizes.values()) \
+            or any(c[1] is not None or c[2] is not None for c in prop_calls):
+        ctx.count("chain_structure_unrecognised")
+        return
+    for (pop, _, _, k, js, u0), b in zip(prop_calls, active):
+        pi, zero, L = tabs[b]
+        if pop != list(range(L - 1)):
+            ctx.count("chain_structure_unrecognised")
+            return
+        us = us_given[u0:u0 + k]
+        obs = Counter()
+        slate_of = {c: s for s, cs in p["slate_to_candidates"].items() for c in cs}
+        for bl in by_bloc[b].ballots:
+            rk = [set(x) for x in (bl.ranking or ())]
+            if rk and zero and rk[-1] <= zero:
+                rk = rk[:-1]
+            if any(len(x) != 1 for x in rk):
+                ctx.count("chain_structure_unrecognised")
+                return
+            names = tuple(next(iter(x)) for x in rk)
+            key = names if model == "name_BradleyTerry" else tuple(slate_of.get(c) for c in names)
+            obs[key] += int(bl.weight)
+        if any(kx not in pi for kx in obs):
+            ctx.fail(f"{model} MCMC: a returned ballot is not a state of the chain (a complete order of the supported candidates)", case,
+                     {"bloc": b, "states": [list(x) for x in obs][:5]})
+            return
+        ctx.count("chain_steps_validated", k)
+        if k >= 3:
+            ctx.count("chain_runs_of_3plus_steps")
+        if not _explained(obs, js, us, pi, list(pi)):
+            ctx.fail(f"{model} MCMC: the ballots returned for a bloc are not the states a Metropolis chain for the model's table visits "
+                     "under the scripted proposals and uniforms (from any start state)", case,
+                     {"bloc": b, "steps": k, "proposals": js[:12], "uniforms": [round(u, 6) for u in us[:12]],
+                      "observed": {" > ".join(map(str, s)): c for s, c in obs.items()}})
+            return
+
+
 # ------------------------------------------------------------------ E. IC / spatial
 
 def check_ic(ctx, case):
@@ -889,7 +1045,8 @@ FREQ_TESTS = ["name_pl", "short_pl", "name_pl_2bloc", "cumulative", "slate_pl", 
               "ac", "cambridge", "name_bt", "name_bt_mcmc", "ic"]
 
 KINDS = {"law": check_law, "types": check_slate_types, "bt": check_bt_tables, "kernel_nbt": check_kernel_name_bt,
-         "kernel_sbt": check_kernel_slate_bt, "ic": check_ic, "spatial": check_spatial, "freq": check_freq}
+         "kernel_sbt": check_kernel_slate_bt, "ic": check_ic, "spatial": check_spatial, "freq": check_freq,
+         "chain": check_chain}
 
 LAW_MODELS = ["name_PlackettLuce", "short_name_PlackettLuce", "name_Cumulative", "slate_PlackettLuce", "slate_BradleyTerry",
               "AlternatingCrossover", "CambridgeSampler"]
@@ -942,6 +1099,12 @@ def run(ctx):
         if i % 16 == 3:
             p = bp.gen_params(rnd, nblocs=2, max_slate=2, extremes=rnd.random() < 0.3)
             ctx.guard("kernel_sbt", check_kernel_slate_bt, ctx, {"kind": "kernel_sbt", "params": p})
+        if i % 16 in (5, 13):
+            mdl = "name_BradleyTerry" if i % 16 == 5 else "slate_BradleyTerry"
+            p = bp.gen_params(rnd, nblocs=2 if mdl == "slate_BradleyTerry" else rnd.choice([1, 2, 2, 3]), max_slate=2,
+                              extremes=mdl == "name_BradleyTerry" and rnd.random() < 0.2)
+            ctx.guard("chain", check_chain, ctx, {"kind": "chain", "model": mdl, "params": p, "N": rnd.choice([2, 5, 9, 17, 40]),
+                                                  "seed": rnd.randrange(10 ** 6)})
         if i % 16 == 4:
             cs = [f"k{j}" for j in range(rnd.randint(1, 4))]
             ctx.guard("ic", check_ic, ctx, {"kind": "ic", "candidates": cs, "N": rnd.choice([1, 5]), "seed": rnd.randrange(10 ** 6)})
